@@ -129,6 +129,44 @@ theorem sign_digest_eq_standard {β : Type} (C : PointOpsCorrect ops G den xc va
   · rw [if_pos hz, if_pos hz]
   · rw [if_neg hz, if_neg hz]
 
+/-- the hash integer for either flag: the leftmost `min(8·len, bitlen n)` bits when truncation is allowed, the digest
+itself (big-endian) when it is not -/
+def digestInt (order : ℤ) (dg : Bytes) (allow : Bool) : ℤ :=
+  if allow then ((bitsToNat ((bytesToBits dg).take (min (8 * dg.length) (bitLen order).toNat)) : ℕ) : ℤ) else (beVal dg : ℤ)
+
+/-- **both truncation flags** (NON-EMPTY digest): with `allow_truncate=False` a digest longer in bytes than the order raises
+`BadDigestError`; in every other case `sign_digest(digest, k=k, allow_truncate=allow)` applies the encoder to the standard
+`(r, s)` for `e = digestInt` (when truncation is disabled and the digest fits, `e` is the digest itself, cf.
+`truncate_short_is_digest`), or raises `RSZeroError` -/
+theorem sign_digest_eq_standard_flag {β : Type} (C : PointOpsCorrect ops G den xc valid) (d k : ℤ) (hk : 1 ≤ k ∧ k < ops.order)
+    (dg : Bytes) (hne : dg ≠ []) (rand : ℤ → Res ℤ) (enc : ℤ → ℤ → ℤ → Res β) (allow : Bool) :
+    ∃ x, xc (k • G) = some x ∧
+      signDigest ops d dg (some k) rand enc allow =
+        (if allow = false ∧ dg.length > baselen ops then .error .badDigest
+         else
+           let e := digestInt ops.order dg allow
+           let r := x % ops.order
+           let s := invZ ops.order k * (e + r * d) % ops.order
+           if r = 0 ∨ s = 0 then .error .rsZero else enc r s ops.order) := by
+  cases allow with
+  | true =>
+    obtain ⟨x, hx, h⟩ := sign_digest_eq_standard C d k hk dg hne rand enc
+    exact ⟨x, hx, by rw [h]; simp [digestInt]⟩
+  | false =>
+    obtain ⟨x, hx, hs⟩ := sign_eq_standard C d (beVal dg : ℤ) k hk
+    refine ⟨x, hx, ?_⟩
+    unfold signDigest
+    rw [truncate_noallow dg hne]
+    by_cases hl : dg.length > baselen ops
+    · simp [hl, bind, Except.bind]
+    · simp only [hl, if_false, bind, Except.bind, sign_number_explicit, hk, and_self, if_true, and_false, digestInt,
+        Bool.false_eq_true]
+      rw [hs]
+      simp only
+      by_cases hz : x % ops.order = 0 ∨ invZ ops.order k * ((beVal dg : ℤ) + x % ops.order * d) % ops.order = 0
+      · rw [if_pos hz, if_pos hz]
+      · rw [if_neg hz, if_neg hz]
+
 /-! ### non-vacuity: the toy instance (cyclic group of order 7) and concrete byte strings -/
 
 example : PointOpsCorrect Toy.ops (1 : ZMod 7) id Toy.xc (fun _ => True) := Toy.correct
